@@ -6,8 +6,11 @@ import time
 import hashlib
 
 VERIF = os.path.dirname(os.path.dirname(os.path.abspath(__file__)))
-EVIDENCE_DIR = os.path.join(VERIF, 'evidence')
-REPLAY_DIR = os.path.join(VERIF, 'replays')
+# VERIF_OUT_DIR redirects evidence and replay artefacts (used when evaluating seeded mutations in a
+# scratch worktree, so that the committed evidence of the unchanged tree is not overwritten).
+_OUT = os.environ.get('VERIF_OUT_DIR') or VERIF
+EVIDENCE_DIR = os.path.join(_OUT, 'evidence')
+REPLAY_DIR = os.path.join(_OUT, 'replays')
 KNOWN_FILE = os.path.join(VERIF, 'known_findings.json')
 
 
